@@ -434,6 +434,13 @@ func (rw *rewriter) post(c *astutil.Cursor) bool {
 				c.Replace(rt(name))
 			}
 		}
+		if path == "math/rand" {
+			if _, isType := obj.(*types.TypeName); isType && (name == "Rand" || name == "Source") {
+				rw.needRT = true
+				rw.stats["type.rand."+name]++
+				c.Replace(rt(name))
+			}
+		}
 	}
 	return true
 }
@@ -442,7 +449,8 @@ var timeFuncs = map[string]bool{"Now": true, "Since": true, "Until": true, "Slee
 	"NewTimer": true, "AfterFunc": true, "NewTicker": true}
 
 var randFuncs = map[string]bool{"Seed": true, "Intn": true, "Int63n": true, "Int31n": true, "Int63": true,
-	"Int": true, "Uint32": true, "Uint64": true, "Float64": true, "Read": true}
+	"Int": true, "Uint32": true, "Uint64": true, "Float64": true, "Read": true, "New": true, "NewSource": true,
+	"Int31": true, "Float32": true, "Perm": true, "Shuffle": true}
 
 func (rw *rewriter) postCall(c *astutil.Cursor, n *ast.CallExpr) {
 	// builtin close
